@@ -39,11 +39,13 @@ def run(ctx):
     W = 4 if q else 8
     # ------------------------------------------------------------------ 1. model checks of the specifications
     r = lib.tlc("MC_Subsets", cfg="MC_Subsets" if q else "MC_Subsets_thorough", workers=W, timeout=1500, heap="6g")
-    ctx.mc_must_pass(r, "Subsets T1-T5, every configuration x number of subsets (%s)" % ("views<=32" if q else "views<=96"), "MC_Subsets")
+    ctx.mc_must_pass(r, "Subsets T1-T5, every configuration x number of subsets (%s)" % ("views<=24" if q else "views<=96"), "MC_Subsets")
     r = lib.tlc("MC_IterSchedule", cfg="MC_IterSchedule" if q else "MC_IterSchedule_thorough", workers=W, timeout=1500, heap="6g", coverage=True)
     ctx.mc_must_pass(r, "IterSchedule: once per full iteration, all schedules (%s)" % ("N<=4" if q else "N<=5"), "MC_IterSchedule")
     if "NextSubiter" not in r.coverage or r.coverage["NextSubiter"][0] == 0:
         raise lib.ModelFailure("MC_IterSchedule: action NextSubiter never taken")
+    r = lib.tlc("MC_IterEvents", cfg="MC_IterEvents" if q else "MC_IterEvents_thorough", workers=W, timeout=1500, heap="6g")
+    ctx.mc_must_pass(r, "IterSchedule event schedule: EvTheorems (final iterate written last, after post-filter; written = multiples of save + last; ...) for every small event configuration", "MC_IterEvents")
     r = lib.tlc("MC_IterSchedule", cfg="MC_IterSchedule_unfixed", workers=2, timeout=600, heap="2g")
     if not r.violation:
         raise lib.ModelFailure("vacuity guard: the schedule invariants hold for the model of the unfixed get_subset_num")
@@ -56,7 +58,7 @@ def run(ctx):
     jobs = []   # (module, trace)
     if ctx.replay:
         head = open(ctx.replay).readline()
-        jobs.append(("Trace_IterSchedule" if '"SchedRun"' in head else "Trace_Subsets", ctx.replay))
+        jobs.append(("Trace_IterSchedule" if ('"SchedRun"' in head or '"EventRun"' in head or '"RandStats"' in head) else "Trace_Subsets", ctx.replay))
     else:
         t1 = os.path.join(ctx.work, "subsets.ndjson")
         lib.run_driver(exe, ["subsets", t1, 0 if q else 1], env=env, timeout=1200)
@@ -67,16 +69,19 @@ def run(ctx):
         t4 = os.path.join(ctx.work, "recon.ndjson")
         t5 = os.path.join(ctx.work, "reconsched.ndjson")
         lib.run_driver(exe, ["recon", t4, t5, 0 if q else 1], env=env, timeout=1200)
-        jobs += [("Trace_Subsets", t1), ("Trace_Subsets", t2), ("Trace_IterSchedule", t3), ("Trace_Subsets", t4), ("Trace_IterSchedule", t5)]
+        t6 = os.path.join(ctx.work, "events.ndjson")
+        lib.run_driver(exe, ["events", t6, 0 if q else 1], env=env, timeout=1200)
+        jobs += [("Trace_Subsets", t1), ("Trace_Subsets", t2), ("Trace_IterSchedule", t3), ("Trace_Subsets", t4), ("Trace_IterSchedule", t5),
+                 ("Trace_IterSchedule", t6)]
     ctx.notes.append("build + record: %.0f s after start" % (_t.time() - ctx.t0))
     # ------------------------------------------------------------------ 3. validate
-    nconf = nrun = nsub = 0
+    nconf = nrun = nsub = nev = 0
     import concurrent.futures as cf, time
     t0 = time.time()
     work = []   # (module, chunk path)
     for module, t in jobs:
         if module == "Trace_Subsets":
-            chunks = lib.split_trace(t, os.path.join(ctx.work, "chunks"), maxlines=2500 if q else 3000)
+            chunks = lib.split_trace(t, os.path.join(ctx.work, "chunks"), maxlines=4000)
             if not ctx.replay and os.path.getsize(t) > 30e6:
                 os.remove(t)     # keep the scratch directory small: the chunks are copies
         else:
@@ -109,6 +114,14 @@ def run(ctx):
                     ctx.nontrivial("S%s|%s|%d|%d|%d" % (cfg["kind"], cfg["eff"], cfg["views"], cfg["maxSeg"], rec["N"]))
                 elif rec["e"] in ("Touched", "Sweep") and cfg:
                     ctx.nontrivial("T%s|%s|%s|%d|%d|%d|%s" % (rec["op"], cfg["kind"], cfg["eff"], cfg["views"], cfg["maxTof"], rec.get("N", 0), rec.get("s", -1)))
+                elif rec["e"] == "EventRun":
+                    nev += 1
+                    ctx.nontrivial("E%s" % json.dumps([rec[k] for k in ("algo", "N", "startSubiter", "numSubiters", "save", "iuInt", "hasIU", "iiInt", "hasII", "hasPF",
+                                                                       "report", "writeUpdate", "disableOutput", "randomise", "resume")]))
+                    if nev % 173 == 1:
+                        ctx.sample({k: rec[k] for k in ("algo", "N", "startSubiter", "numSubiters", "save", "iuInt", "iiInt", "hasPF", "report", "resume", "ev", "files", "disk")})
+                elif rec["e"] == "RandStats":
+                    ctx.nontrivial("X%d" % rec["N"])
                 elif rec["e"] == "SchedRun":
                     nrun += 1
                     ctx.nontrivial("R%s|%d|%d|%d|%d|%s|%d|%d" % (rec["algo"], rec["N"], rec["startSubset"], rec["startSubiter"], rec["numSubiters"],
@@ -182,9 +195,30 @@ def run(ctx):
                     return True
             return False
         _corrupt_guard(ctx, "Trace_IterSchedule", shead, repeat_subset, "a subset used twice in one full iteration")
+        ehead = os.path.join(ctx.work, "guard-events.ndjson")
+        open(ehead, "w").writelines(open(t6).readlines()[:120])
+
+        def drop_final_write(recs):
+            for rec in recs:
+                if rec["e"] == "EventRun" and rec["ev"] and rec["ev"][-1][0] == 7 and not rec["err"]:
+                    rec["ev"] = rec["ev"][:-1]
+                    return True
+            return False
+
+        def filter_one_late(recs):
+            for rec in recs:
+                if rec["e"] == "EventRun" and not rec["err"]:
+                    for e in rec["ev"]:
+                        if e[0] == 5 and e[1] + 1 <= rec["numSubiters"]:
+                            e[1] += 1
+                            return True
+            return False
+        _corrupt_guard(ctx, "Trace_IterSchedule", ehead, drop_final_write, "the write of the final iterate removed")
+        _corrupt_guard(ctx, "Trace_IterSchedule", ehead, filter_one_late, "an inter-iteration filter application moved to the next sub-iteration")
     ctx.extra["configurations"] = nconf
     ctx.extra["subset_tables"] = nsub
     ctx.extra["schedule_runs"] = nrun
+    ctx.extra["event_runs"] = nev
     if nconf == 0 and not ctx.replay:
         raise lib.ModelFailure("no configuration was recorded")
     ctx.exhaustive = not q
